@@ -1,7 +1,358 @@
-// correspondence + search binary for property C09 (stub)
+// C09 — regret matching: the real `Profile::policy_vector` / `Profile::regret_vector` on
+// information sets of really sampled trees (hooks H4/H5/H6), against
+//   (a) the Lean model (lines `policy32` = binary32 instantiation, `policyq` = exact-rational
+//       instantiation the theorems are about, `clamp`, `walker`), and
+//   (b) the search oracle written from the property statement: the result is a probability
+//       distribution over exactly the menu, proportional to the positive part of the stored
+//       regrets (uniform when none is positive) up to the floor POLICY_MIN, and nothing aborts;
+//       recorded regrets lie inside the clamp and are finite.
+use robopoker::gameplay::ply::Turn;
+use robopoker::mccfr::blueprint::Blueprint;
+use robopoker::mccfr::bucket::Bucket;
+use robopoker::mccfr::edge::Edge;
+use robopoker::mccfr::encoder::Encoder;
+use robopoker::mccfr::info::Info;
+use robopoker::mccfr::partition::Partition;
+use robopoker::mccfr::profile::Profile;
+use robopoker::verif::{POLICY_MIN, REGRET_MAX, REGRET_MIN};
+use rpharness::*;
+use std::collections::{BTreeMap, BTreeSet};
+use std::panic::AssertUnwindSafe;
+
+/// exact decimal text of an f32 (through f64, which holds every f32 exactly)
+fn tok(x: f32) -> String {
+    format!("~{:e}", x as f64)
+}
+
+struct Site {
+    info: Info,
+    bucket: Bucket,
+    /// the menu in the order of the BTreeMap the code builds (derived `Ord` of `Edge`)
+    edges: Vec<Edge>,
+    player: usize,
+}
+
+fn sites_of(bp: &Blueprint, want: usize) -> Vec<Site> {
+    let mut out = vec![];
+    while out.len() < want {
+        let tree = bp.verif_tree();
+        for info in Vec::<Info>::from(Partition::from(tree)) {
+            let node = info.node();
+            let player = match node.player().0 {
+                Turn::Choice(k) => k,
+                _ => continue,
+            };
+            let bucket = node.bucket().clone();
+            let edges: Vec<Edge> = node.outgoing().into_iter().cloned().collect::<BTreeSet<_>>().into_iter().collect();
+            out.push(Site { info, bucket, edges, player });
+        }
+    }
+    out
+}
+
+fn magnitude(rng: &mut Rng) -> f32 {
+    // log-uniform over the whole positive f32 range, denormals included
+    let bits = rng.below(0x7F80_0000) as u32;
+    f32::from_bits(bits)
+}
+
+fn regrets(rng: &mut Rng, n: usize, kind: u64) -> Vec<f32> {
+    let specials = [
+        0.0f32, -0.0, 1.0, -1.0, REGRET_MIN, REGRET_MAX, -REGRET_MAX, POLICY_MIN, -POLICY_MIN, f32::from_bits(1), -f32::from_bits(1),
+        f32::from_bits(0x007F_FFFF), REGRET_MAX / 2.0, REGRET_MAX / 4.0, REGRET_MAX / 13.0, 1e30, -1e30, 3e5, 100.0, -100.0, 0.5,
+    ];
+    (0..n)
+        .map(|i| match kind {
+            0 => 0.0,
+            1 => -magnitude(rng),
+            2 => {
+                let m = magnitude(rng);
+                if rng.chance(1, 2) { m } else { -m }
+            }
+            3 => if i == 0 { magnitude(rng) } else { -magnitude(rng) },
+            4 => 7.25,
+            5 => f32::from_bits(rng.below(0x0080_0000) as u32) * if rng.chance(1, 2) { 1.0 } else { -1.0 },
+            6 => specials[rng.below(specials.len() as u64) as usize],
+            7 => (rng.range(-400, 400) as f32) * 0.25,
+            8 => {
+                // training-like magnitudes
+                let m = (rng.unit() * 2e4) as f32;
+                if rng.chance(1, 2) { m } else { -m * 15.0 }
+            }
+            9 => REGRET_MAX / (1 + rng.below(2 * n as u64 + 2)) as f32,
+            _ => if rng.chance(1, 3) { 0.0 } else if rng.chance(1, 2) { specials[rng.below(specials.len() as u64) as usize] } else { magnitude(rng) },
+        })
+        .collect()
+}
+
+fn epoch(rng: &mut Rng) -> usize {
+    match rng.below(8) {
+        0 => 0,
+        1 => 1,
+        2 => 2,
+        3 => rng.below(16) as usize,
+        4 => rng.below(1 << 20) as usize,
+        5 => rng.below(1 << 40) as usize,
+        6 => (1usize << rng.below(63)) + rng.below(3) as usize,
+        _ => usize::MAX - rng.below(4) as usize,
+    }
+}
+
+/// the specification of regret matching, from the property text (f64; inputs finite)
+fn oracle(run: &mut Run, op: &str, site: &Site, t: usize, r: &[f32], got: &Option<BTreeMap<Edge, f32>>) {
+    run.spec_checked += 1;
+    let n = r.len();
+    let d = (t.max(1)) as f64;
+    let eps = POLICY_MIN as f64;
+    // does the code's own f32 sum leave the finite range?  (classification only)
+    let sum32: f32 = r.iter().map(|x| (x / (t.max(1) as f32)).max(POLICY_MIN)).sum();
+    let class_of = |c: &str| if !sum32.is_finite() { "policy-sum-overflows-f32".to_string() } else { c.to_string() };
+    let shown = |m: &BTreeMap<Edge, f32>| m.values().map(|v| format!("{v:e}")).collect::<Vec<_>>().join(" ");
+    let input = format!("{op} (regrets {})", r.iter().map(|v| format!("{v:e}")).collect::<Vec<_>>().join(" "));
+    let m = match got {
+        None => {
+            run.fail(&class_of("policy-panics"), &input, "a probability distribution", "panic");
+            return;
+        }
+        Some(m) => m,
+    };
+    let keys: Vec<Edge> = m.keys().cloned().collect();
+    if keys != site.edges {
+        run.fail("policy-keys-differ-from-menu", &input, &format!("{:?}", site.edges), &format!("{keys:?}"));
+        return;
+    }
+    let p: Vec<f64> = m.values().map(|v| *v as f64).collect();
+    let total: f64 = p.iter().sum();
+    if p.iter().any(|x| !(x.is_finite() && *x >= 0.0 && *x <= 1.0)) || (total - 1.0).abs() > 1e-5 {
+        run.fail(&class_of("policy-not-a-distribution"), &input, "each p in [0,1], sum 1", &format!("{} (sum {total:e})", shown(m)));
+        return;
+    }
+    // proportional to the positive part; uniform when no regret is positive
+    let pos: Vec<f64> = r.iter().map(|x| (*x as f64).max(0.0)).collect();
+    let psum: f64 = pos.iter().sum();
+    let floor_all = r.iter().all(|x| (*x as f64) / d <= eps);
+    if psum == 0.0 || floor_all {
+        if p.iter().any(|x| (x - 1.0 / n as f64).abs() > 1e-6) {
+            run.fail("policy-not-uniform", &input, &format!("1/{n} each"), &shown(m));
+        }
+    } else {
+        // |p_a - R_a^+ / sum R^+| <= n eps t / sum R^+   (theorem prob_near_regret_matching)
+        let slack = n as f64 * eps * d / psum;
+        for a in 0..n {
+            let want = pos[a] / psum;
+            if (p[a] - want).abs() > slack + 1e-5 * want.max(1e-30) + 3e-45 {
+                run.fail("policy-not-proportional-to-positive-regret", &input, &format!("p[{a}] = {want:e} +- {slack:e}"), &shown(m));
+                return;
+            }
+        }
+    }
+    // the exact floored formula p_a = max(R_a/t, eps) / S
+    let fl: Vec<f64> = r.iter().map(|x| ((*x as f64) / d).max(eps)).collect();
+    let s: f64 = fl.iter().sum();
+    for a in 0..n {
+        let want = fl[a] / s;
+        if (p[a] - want).abs() > 1e-5 * want + 3e-45 {
+            run.fail("policy-differs-from-floored-formula", &input, &format!("p[{a}] = {want:e}"), &shown(m));
+            return;
+        }
+    }
+    // any two actions above the floor get probabilities in the ratio of their regrets
+    // (cross-multiplied; the absolute term is the quantum of the subnormal f32 range)
+    for a in 0..n {
+        for b in 0..n {
+            if fl[a] > eps && fl[b] > eps {
+                let (ra, rb) = (r[a] as f64, r[b] as f64);
+                let (lhs, rhs) = (p[a] * rb, p[b] * ra);
+                if (lhs - rhs).abs() > 1e-4 * rhs.abs() + 3e-45 * (ra.abs() + rb.abs()) {
+                    run.fail("policy-ratio-differs-from-regret-ratio", &input, &format!("p[{a}]*R[{b}] = p[{b}]*R[{a}] = {rhs:e}"), &format!("{lhs:e}"));
+                    return;
+                }
+            }
+        }
+    }
+}
+
 fn main() {
-    let a = rpharness::args();
-    let mut run = rpharness::Run::new(&a.out);
-    run.rule = "stub".into();
+    let a = args();
+    let mut rng = Rng::new(a.seed);
+    let mut run = Run::new(&a.out);
+    quiet_panics();
+    let cases = if a.thorough() { 400_000 } else { 30_000 };
+    let clamp_cases = if a.thorough() { 400_000 } else { 40_000 };
+    let tree_rounds = if a.thorough() { 40 } else { 6 };
+
+    // ---- information sets of really sampled trees, for both traversers
+    let mut sites: Vec<Site> = vec![];
+    let mut blueprints = vec![];
+    for parity in 0..2usize {
+        let mut profile = Profile::default();
+        profile.verif_set_epochs(parity);
+        let bp = Blueprint::verif_new(profile, Encoder::default());
+        sites.extend(sites_of(&bp, if a.thorough() { 6000 } else { 1500 }));
+        blueprints.push(bp);
+    }
+    let mut by_size: BTreeMap<usize, Vec<usize>> = BTreeMap::new();
+    for (i, s) in sites.iter().enumerate() {
+        by_size.entry(s.edges.len()).or_default().push(i);
+    }
+    let sizes: Vec<usize> = by_size.keys().cloned().collect();
+    run.notes.push(format!("information sets sampled: {} (menu sizes {:?})", sites.len(), by_size.iter().map(|(k, v)| (*k, v.len())).collect::<Vec<_>>()));
+
+    // ---- policy_vector
+    let mut profile = Profile::default();
+    for case in 0..cases {
+        let size = sizes[rng.below(sizes.len() as u64) as usize];
+        let pool = &by_size[&size];
+        let site = &sites[pool[rng.below(pool.len() as u64) as usize]];
+        let kind = if case < 11 * 40 { (case / 40) as u64 } else { rng.below(11) };
+        let mut r = regrets(&mut rng, size, kind);
+        // a few inputs outside the property's quantifier (stored NaN / inf): correspondence only
+        let outside = rng.chance(1, 60);
+        if outside {
+            let i = rng.below(size as u64) as usize;
+            r[i] = [f32::NAN, f32::INFINITY, f32::NEG_INFINITY][rng.below(3) as usize];
+        }
+        let mut t = epoch(&mut rng);
+        let mismatch = rng.chance(1, 25);
+        if (t % 2 == site.player) == mismatch {
+            t = if t == usize::MAX { t - 1 } else { t + 1 };
+        }
+        for (e, x) in site.edges.iter().zip(r.iter()) {
+            profile.verif_set_memory(&site.bucket, e, *x, 0.5);
+        }
+        profile.verif_set_epochs(t);
+        run.evaluations += 1;
+        let got = catch(AssertUnwindSafe(|| profile.policy_vector(&site.info)));
+        let bits = r.iter().map(|x| x.to_bits().to_string()).collect::<Vec<_>>().join(" ");
+        let answer = match &got {
+            None => "panic".to_string(),
+            Some(m) => m.values().map(|v| tok(*v)).collect::<Vec<_>>().join(" "),
+        };
+        let op = format!("policy32 {} {} {}", site.player, t, bits);
+        run.line(&op, &answer);
+        run.distinct(&(site.player, t, bits.clone()));
+        run.count(&format!("menu={:02}", size));
+        run.count(&format!("kind={:02}", kind));
+        run.count(match t { 0 => "t=0", 1 => "t=1", 2..=15 => "t=2..15", 16..=1048575 => "t<2^20", _ => "t>=2^20" });
+        if mismatch {
+            run.count("walker-mismatch");
+            run.spec_checked += 1;
+            if got.is_some() {
+                run.fail("policy-vector-for-non-traverser", &op, "panic (walker assertion)", &answer);
+            }
+            continue;
+        }
+        if outside {
+            run.count("outside-quantifier(NaN/inf stored)");
+            continue;
+        }
+        let sum32: f32 = r.iter().map(|x| (x / (t.max(1) as f32)).max(POLICY_MIN)).sum();
+        if sum32.is_finite() {
+            // the exact-rational instantiation must agree too (tolerance of the property file)
+            run.line(&format!("policyq {} {} {}", site.player, t, bits), &answer);
+        } else {
+            run.count("f32-sum-overflows");
+        }
+        oracle(&mut run, &op, site, t, &r, &got);
+    }
+
+    // ---- regret_vector on the sampled trees, stored strategies made extreme
+    for bp in &blueprints {
+        let arc = bp.verif_profile();
+        let parity = arc.read().unwrap().epochs() % 2;
+        for round in 0..tree_rounds {
+            let infos = Vec::<Info>::from(Partition::from(bp.verif_tree()));
+            {
+                let mut p = arc.write().unwrap();
+                for (bucket, rows) in p.verif_buckets() {
+                    for (edge, regret, policy) in rows {
+                        let w = match round % 3 {
+                            0 => policy,
+                            1 => (rng.unit() as f32).max(1e-3),
+                            _ => magnitude(&mut rng).min(1.0).max(1e-37),
+                        };
+                        p.verif_set_memory(&bucket, &edge, regret, w);
+                    }
+                }
+                p.verif_set_epochs(parity + 2 * round);
+            }
+            let p = arc.read().unwrap();
+            for info in infos.iter() {
+                let menu: BTreeSet<Edge> = info.node().outgoing().into_iter().cloned().collect();
+                run.evaluations += 1;
+                run.spec_checked += 1;
+                let got = catch(AssertUnwindSafe(|| p.regret_vector(info)));
+                let what = format!("regret_vector at {} (tree round {round}, walker {parity})", info.node().bucket());
+                match got {
+                    None => run.fail("regret-vector-panics", &what, "a clamped finite vector", "panic"),
+                    Some(m) => {
+                        if m.keys().cloned().collect::<BTreeSet<_>>() != menu {
+                            run.fail("regret-keys-differ-from-menu", &what, &format!("{menu:?}"), &format!("{:?}", m.keys()));
+                        }
+                        for (e, v) in m.iter() {
+                            if !(v.is_finite() && *v >= REGRET_MIN && *v <= REGRET_MAX) {
+                                run.fail("recorded-regret-outside-clamp", &format!("{what} edge {e}"), &format!("[{REGRET_MIN:e}, {REGRET_MAX:e}]"), &format!("{v:e}"));
+                            }
+                            // the recorded value must be a fixed point of the model's clamp
+                            run.line(&format!("clamp {}", v.to_bits()), &tok(*v));
+                            run.count(if *v == REGRET_MIN { "recorded=REGRET_MIN" } else if *v == REGRET_MAX { "recorded=REGRET_MAX" } else { "recorded-inside" });
+                        }
+                    }
+                }
+            }
+        }
+    }
+
+    // ---- the clamp expression of regret_vector on arbitrary bit patterns (the expression is
+    //      restated here with the crate's own constants: it ties the constants, their order and
+    //      the NaN rule of f32::max/min to the model, not the call site)
+    let mut pats: Vec<u32> = vec![0, 0x8000_0000, 0x7F80_0000, 0xFF80_0000, 0x7FC0_0000, 0xFFC0_0000, 0x7F7F_FFFF, 0xFF7F_FFFF, REGRET_MIN.to_bits(), REGRET_MIN.to_bits() + 1, REGRET_MIN.to_bits() - 1, 1, 0x8000_0001, 0x7F80_0001, 0xFFFF_FFFF];
+    for _ in 0..clamp_cases {
+        pats.push(rng.next() as u32);
+    }
+    for b in pats {
+        let x = f32::from_bits(b);
+        let y = x.max(REGRET_MIN).min(REGRET_MAX);
+        run.evaluations += 1;
+        run.spec_checked += 1;
+        let op = format!("clamp {b}");
+        let ok = !y.is_nan() && !y.is_infinite();
+        run.line(&op, &if ok { tok(y) } else { "panic".into() });
+        let want = if x.is_nan() { REGRET_MIN } else if x < REGRET_MIN { REGRET_MIN } else if x > REGRET_MAX { REGRET_MAX } else { x };
+        if !(ok && y == want) {
+            run.fail("clamp-outside-range", &op, &format!("{want:e}"), &format!("{y:e}"));
+        }
+        run.count(if x.is_nan() { "clamp:nan" } else if x.is_infinite() { "clamp:inf" } else if x < REGRET_MIN { "clamp:below" } else { "clamp:inside" });
+    }
+
+    // ---- walker
+    let mut p = Profile::default();
+    let mut ts: Vec<usize> = (0..64).collect();
+    for _ in 0..2000 {
+        ts.push(epoch(&mut rng));
+    }
+    for t in ts {
+        p.verif_set_epochs(t);
+        let w = match p.walker().0 {
+            Turn::Choice(k) => k.to_string(),
+            other => format!("{other}"),
+        };
+        run.evaluations += 1;
+        run.spec_checked += 1;
+        run.line(&format!("walker {t}"), &w);
+        if w != (t % 2).to_string() {
+            run.fail("walker-not-epoch-parity", &format!("walker at epoch {t}"), &(t % 2).to_string(), &w);
+        }
+    }
+
+    run.rule = format!(
+        "{cases} policy_vector cases on information sets of really sampled trees (both traversers, every menu size the sampler offers), \
+         regret vectors of 11 kinds (zeros, all negative, mixed signs over the whole f32 exponent range, one positive, equal, denormals, \
+         special values incl. +-clamp bounds and +-f32::MAX, quarters, training-like, near-overflow MAX/k, mixtures), epoch counter in \
+         {{0,1,2,small,<2^20,<2^40,2^k,usize::MAX-k}} with parity chosen to match the node's player (1/25 deliberately mismatched: must abort), \
+         1/60 with a stored NaN/inf (correspondence only); regret_vector on every information set of {tree_rounds} more trees per traverser with \
+         the stored average strategy left as is / randomised / made extreme; {clamp_cases} random bit patterns through the clamp expression; \
+         walker at 2064 counters. A policy case is non-trivial always (>= 2 actions or a checked singleton); distinct by (player, t, regret bits)"
+    );
     run.finish();
 }
